@@ -293,7 +293,7 @@ class PlanSim:
         return self.icode.get(f, NO) != NO
 
 
-def make_plans(rng, prog, files, level, iface, late_iface, avoid_kf1, avoid_kf2, nact=24):
+def make_plans(rng, prog, files, level, iface, late_iface, avoid_kf1, avoid_kf2, nact=24, no_icode_before_late=False):
     """returns (test_plan, canon_plan, interp_plan, meta).  files: module name -> path"""
     base = prog.base_modules()
     late = prog.late_modules()
@@ -306,6 +306,18 @@ def make_plans(rng, prog, files, level, iface, late_iface, avoid_kf1, avoid_kf2,
     nid = [0]
     stats = {"gen": 0, "regen": 0, "interp": 0, "call": 0, "checktext": 0, "skipped_kf": 0,
              "interp_after_gen": 0, "gen_after_interp": 0}
+
+    phase = [1]
+
+    def exec_ok(f, via):
+        # assert-enabled builds: linking a module that inlines an interpreted function asserts (open kf1)
+        saved = (dict(sim.gen), dict(sim.icode))
+        if not sim.try_exec(f, via):
+            return False
+        if no_icode_before_late and phase[0] == 1 and any(v != NO for v in sim.icode.values()):
+            sim.gen, sim.icode = saved
+            return False
+        return True
 
     def act(funcs, count):
         for _ in range(count):
@@ -327,7 +339,7 @@ def make_plans(rng, prog, files, level, iface, late_iface, avoid_kf1, avoid_kf2,
             elif k < 6:
                 n = rng.below(8)
                 i = rng.below(3)
-                if sim.try_exec(f, "interp"):
+                if exec_ok(f, "interp"):
                     plan.append(f"INTERP {i} {f} {n}")
                     inputs.append((i, f, n))
                     stats["interp"] += 1
@@ -338,7 +350,7 @@ def make_plans(rng, prog, files, level, iface, late_iface, avoid_kf1, avoid_kf2,
             elif k < 8:
                 n = rng.below(8)
                 i = rng.below(3)
-                if sim.try_exec(f, "thunk"):
+                if exec_ok(f, "thunk"):
                     plan.append(f"CALL {i} {f} {n}")
                     inputs.append((i, f, n))
                     stats["call"] += 1
@@ -357,6 +369,7 @@ def make_plans(rng, prog, files, level, iface, late_iface, avoid_kf1, avoid_kf2,
         late_iface = "interp"      # eager generation would hit the open known finding
     plan += [f"SCAN {files[m[0]]}" for m in late] + [f"LOADLINK {late_iface}", "SNAP s1"]
     sim.link(late_funcs, late_iface)
+    phase[0] = 2
     act(base_funcs + late_funcs + late_funcs, nact)
     # finally everything is generated (where allowed) and called once more
     for f in base_funcs + late_funcs:
